@@ -287,6 +287,8 @@ def _part_c(job):
         sc['cancel_policy'] = rng.choice(['never', 'rnd'])
         sc['sl'], sc['tp'] = rng.choice([0.02, 0.05]), rng.choice([0.02, 0.05])
         sc['size_frac'] = rng.choice([0.1, 0.25])
+        if job['i'] % 2 == 0:
+            sc['read_metrics'] = rng.choice([7, 40, 150])     # the strategy looks at self.metrics while the session runs
     if job.get('resting_buy_route') is not None and spot and job['nsym'] == 2:
         # one route keeps a far-away resting buy (reserved quote) across midnight
         sc = spec['routes'][job['resting_buy_route']]['script']
@@ -294,6 +296,7 @@ def _part_c(job):
         sc.update(entry=rng.choice(['limit', 'stop']), entry_dist=0.2, cancel_policy='never', p_enter=1.0)
     if job.get('swap') and len(spec['routes']) == 2:
         spec['routes'] = spec['routes'][::-1]
+    spec['options'] = {'generate_equity_curve': True}
     out = session.run_session(spec, snapshots=False)
     viol, cnt = [], {'C_sessions': 1}
     if spot and job['nsym'] == 2:
@@ -372,6 +375,15 @@ def _part_c(job):
             v('equity_series_length', f'{len(samples)} samples for {n_min} simulated minutes, expected {want}')
         if samples and not close(samples[0], cfg['starting_balance']):
             v('equity_series_does_not_start_at_starting_balance', f'{samples[0]} vs {cfg["starting_balance"]}')
+        # the series that is REPORTED (equity curve of the result; the return-based metrics are computed from the same list)
+        # is the list of those samples - nothing else may have been written into it while the session ran
+        curve = (out['result'] or {}).get('equity_curve')
+        if curve:
+            rep = [float(x['value']) for x in curve[0]['data']]
+            cnt['C_reported_curve_checks'] = 1
+            if len(rep) != len(samples) or any(not close(a_, b_, 1e-9) for a_, b_ in zip(rep, samples)):
+                v('reported_equity_curve_differs_from_daily_samples',
+                  f'the result reports {len(rep)} equity samples {rep[:6]}, the session took {len(samples)} samples {samples[:6]}')
         if len(samples) >= 2:
             # ... and it ends at the final portfolio value: the shadow account after EVERY event of the session (forced close
             # of open positions and its fee included), marked at the last close
